@@ -343,25 +343,81 @@ void h_quote_key(void)
     free(q);
 }
 
+/* ------------------------------------------------------- map_compare_keys */
+/*
+ * The order the hash chains are kept in (and searched by, with early exit):
+ * lexicographic on (32-bit hash value, key string).  Contract over the FULL
+ * domain of both hash values and one-byte keys: the sign of the result is
+ * the sign of that comparison -- hence antisymmetric and transitive, which
+ * is what map_find_anchor's early exit needs.  Loop-free: a complete proof.
+ */
+void h_map_compare(void)
+{
+    IN(uint, h1);
+    IN(uint, h2);
+    IN(char, c1);
+    IN(char, c2);
+    vnaproperty_map_element_t e;
+    char k1[2], k2[2];
+    int r, want;
+
+    ASSUME(c1 != 0 && c2 != 0);
+    k1[0] = c1; k1[1] = 0;
+    k2[0] = c2; k2[1] = 0;
+    (void)memset((void *)&e, 0, sizeof(e));
+    e.vme_hashval = h2;
+    e.vme_pair.vmpr_key = k2;
+    r = map_compare_keys(k1, h1, &e);
+    REACH("map_compare_keys returned");
+    want = h1 < h2 ? -1 : h1 > h2 ? 1 :
+	(unsigned char)c1 < (unsigned char)c2 ? -1 : (unsigned char)c1 > (unsigned char)c2 ? 1 : 0;
+    CHECK((r < 0) == (want < 0) && (r > 0) == (want > 0),
+	    "map_compare_keys orders by (hash value, key): the sign of the result is the sign of that comparison");
+}
+
 /* -------------------------------------------------------------- descriptors */
 #ifdef H_DESCRIPTOR
 #ifndef VERIF_NATIVE
-/* ASSUMED CONTRACT: for a format without conversions vasprintf returns a fresh copy of it */
+/* ASSUMED CONTRACT: vasprintf for the conversions the library's own descriptors use: %s and %d (0..99) */
 int vasprintf(char **strp, const char *fmt, va_list ap)
 {
+    char buf[48];
     size_t n = 0;
 
-    (void)ap;
     for (int i = 0; i < 32; ++i) {
 	if (fmt[i] == 0)
 	    break;
-	CHECK(fmt[i] != '%', "infra: descriptor harness uses formats without conversions");
-	++n;
+	if (fmt[i] == '%') {
+	    ++i;
+	    if (fmt[i] == 's') {
+		const char *a = va_arg(ap, const char *);
+
+		for (int k = 0; k < 16; ++k) {
+		    if (a[k] == 0)
+			break;
+		    CHECK(n < sizeof(buf) - 1, "infra: descriptor harness string too long");
+		    buf[n++] = a[k];
+		}
+	    } else if (fmt[i] == 'd') {
+		int d = va_arg(ap, int);
+
+		CHECK(d >= 0 && d <= 99, "infra: descriptor harness uses small non-negative subscripts");
+		if (d >= 10)
+		    buf[n++] = (char)('0' + d / 10);
+		buf[n++] = (char)('0' + d % 10);
+	    } else {
+		CHECK(0, "infra: descriptor harness: conversion other than %s, %d");
+	    }
+	    continue;
+	}
+	CHECK(n < sizeof(buf) - 1, "infra: descriptor harness string too long");
+	buf[n++] = fmt[i];
     }
     *strp = malloc(n + 1);
     ASSUME(*strp != NULL);
-    for (size_t i = 0; i <= n; ++i)
-	(*strp)[i] = fmt[i];
+    for (size_t i = 0; i < n; ++i)
+	(*strp)[i] = buf[i];
+    (*strp)[n] = 0;
     return (int)n;
 }
 #endif
@@ -491,6 +547,39 @@ void h_descriptor(void)
 	CHECK(keys != NULL && keys[0] != NULL && keys[1] != NULL && keys[2] == NULL &&
 		str_eq(keys[1], "2port"), "the stored key is the unquoted text");
 	free((void *)keys);
+    }
+#elif DESC_CASE == 12
+    rc = vnaproperty_set(&root, "\\a\\b  =1");		/* two escapes, then unescaped trailing spaces */
+    REACH("escaped set returned");
+    CHECK(rc == 0, "escaped identifier characters are accepted");
+    v = vnaproperty_get(root, "ab");
+    CHECK(v != NULL && str_eq(v, "1"), "unescaped trailing spaces are not part of the key, however many escapes precede them");
+    rc = vnaproperty_set(&root, "c\\ =2");		/* an ESCAPED trailing space belongs to the key */
+    CHECK(rc == 0, "an escaped space is accepted");
+    v = vnaproperty_get(root, "c\\ ");
+    CHECK(v != NULL && str_eq(v, "2"), "an escaped trailing space is part of the key");
+    errno = 0;
+    v = vnaproperty_get(root, "c");
+    CHECK(v == NULL && errno == ENOENT, "and the key without it is a different key");
+#elif DESC_CASE == 11
+    {
+	vnaproperty_t *copy = NULL;
+
+	CHECK(vnaproperty_set_subtree(&root, "e{}") != NULL, "an empty map can be created");
+	CHECK(vnaproperty_set_subtree(&root, "l[]") != NULL, "an empty list can be created");
+	CHECK(vnaproperty_type(root, "e") == 'm' && vnaproperty_count(root, "e") == 0 &&
+		vnaproperty_type(root, "l") == 'l' && vnaproperty_count(root, "l") == 0, "both are there and empty");
+	rc = vnaproperty_copy(&copy, root);
+	REACH("copy returned");
+	CHECK(rc == 0, "copy succeeds");
+	CHECK(vnaproperty_count(copy, ".") == 3, "the copy has the same three keys");
+	v = vnaproperty_get(copy, "foo");
+	CHECK(v != NULL && str_eq(v, "bar"), "scalars are copied");
+	CHECK(vnaproperty_type(copy, "e") == 'm' && vnaproperty_count(copy, "e") == 0,
+		"an empty map is copied as an empty map");
+	CHECK(vnaproperty_type(copy, "l") == 'l' && vnaproperty_count(copy, "l") == 0,
+		"an empty list is copied as an empty list");
+	(void)vnaproperty_delete(&copy, ".");
     }
 #endif
     (void)sub; (void)v;
